@@ -126,9 +126,13 @@ var keys = []keySpec{
 	{"SYM", pm.SymKey("y")},
 	{`"q"`, pm.SKey("q")},
 	{`"c"`, pm.SKey("c")},
+	// the same property key as "0", written as a number: the engine routes integer-valued keys through separate
+	// internal methods (getIdx / setIdx / ... and the *Idx traps of ProxyTrapConfig)
+	{`0`, pm.SKey("0")},
 }
 
-const nProbeKeys = 3 // p, 0, SYM are used as the probed key
+// probeKeys are the keys used as the probed key: "p", "0", SYM and the number 0.
+var probeKeys = []int{0, 1, 2, 5}
 
 // ---- target property configurations ----
 
